@@ -158,9 +158,13 @@ def sh_coqc(f):
 def correspond(ctx, n_per=150):
     """the regenerated model of the 15 token lexers against the real functions (hook 5) on generated texts"""
     import svx_lexers, svx_keywords
-    facts = svx_lexers.main()
-    names = facts["names"]
-    reserved = set(svx_keywords.main()["words"]["KEYWORDS_1800_2017"])
+    try:
+        facts = svx_lexers.main()
+        names = facts["names"]
+        reserved = set(svx_keywords.main()["words"]["KEYWORDS_1800_2017"])
+    except Exception as e:
+        ctx.obl("regenerated:token lexers (15 bodies of the five known shapes)", "regenerated", False, "translator failed: %r" % (e,))
+        return
     r = ctx.rng
     items, cases = [], []
     for name in names:
